@@ -23,7 +23,27 @@ func main() {
 	repo := flag.String("repo", "/repo", "repository root")
 	verif := flag.String("verif", "/verif", "verif root (evidence/, known_findings.json)")
 	dump := flag.String("dump", "", "debug: print SSA of the named function (mod program)")
+	pin := flag.String("pin", "", "maintenance: write the identifier fingerprints of the tree at -repo to this file (checker/ipc/pinned.json) and exit")
+	aliases := flag.Bool("aliases", false, "debug: print the rename aliases established for the tree at -repo")
 	flag.Parse()
+	if *pin != "" || *aliases {
+		p, err := ipc.LoadNamed("mod", *repo, nil, "", "")
+		if err != nil {
+			fmt.Println(err)
+			os.Exit(2)
+		}
+		if *aliases {
+			for _, l := range p.Aliases {
+				fmt.Println(l)
+			}
+			return
+		}
+		if err := os.WriteFile(*pin, ipc.ComputePinned(p).JSON(), 0o644); err != nil {
+			fmt.Println(err)
+			os.Exit(2)
+		}
+		return
+	}
 	if *tier == "" {
 		*tier = os.Getenv("VERIF_TIER")
 	}
@@ -138,6 +158,18 @@ func runOne(id, tier string, seed int64, repo, verif string, progs map[string]*i
 		mine[n] = progs[n]
 	}
 	c := ipc.NewCtx(id, mine)
+	var pnames []string
+	for name := range mine {
+		pnames = append(pnames, name)
+	}
+	sort.Strings(pnames)
+	for _, name := range pnames {
+		as := append([]string{}, mine[name].Aliases...)
+		sort.Strings(as)
+		for _, a := range as {
+			c.Infof("program %s: %s", name, a)
+		}
+	}
 	defer func() {
 		if r := recover(); r != nil {
 			code = fail(fmt.Sprintf("checker panic: %v\n%s", r, debug.Stack()))
